@@ -861,7 +861,8 @@ class C08Executor(readfile.ReadFileExecutor):
             return [(st, st.ghost[("bind", base.name, attr)])]       # a name this activation has (re)bound in that module
         if attr in self._LIST_GROW and self._grown_list(st, base):
             return [(st, VFunc("bound", base, attr))]        # a list of unknown content: append & co. are total
-        if attr == "close" and isinstance(base, VUnk):
+        if attr == "close" and (isinstance(base, VUnk) or isinstance(base, VExt) and self.reg.method_models.get((base.sort, "close")) is None
+                                and self.reg.attr_models.get((base.sort, "close")) is None):
             return [(st, VFunc("bound", base, attr))]        # see call_method: close() assumed total
         return super().get_attr(st, base, attr, node)
 
@@ -1388,13 +1389,21 @@ def doc_contracts(reg):
 
     def new_docreader(ex, st, args, kwargs, node):
         f = _fl(args[0]) if args else None
+        if f is not None:
+            st.ghost["doc_bytes"] = Term(f.t)
         return [(st, VExt("DocReader", DR_OF(f.t)) if f is not None else VExt("DocReader"))]
 
     def with_docreader(ex, st, cm, phase):
         if phase == "enter":
             ex.exc_any(st.fork(), "_DocReader.__enter__ (olefile.OleFileIO)")
             st.ghost["doc_opened"] = True
+            # by the VERIFIED contracts of _DocReader.__init__ / __enter__ (handle_contracts): the reader keeps the very bytes it
+            # was given and `doc.ole` is the olefile directory view of those bytes; `as doc` is the reader itself
+            f = st.ghost.get("doc_bytes")
+            if f is not None:
+                st.assume(DR_OLE(cm.t) == OLE_OF(f.t))
             return [(st, cm)]
+        # "exit": verified `_DocReader.__exit__/ensures#returns-a-false-value...` -- the outcome of the body is left as it is
 
     def m_doc_read(ex, st, obj, args, kwargs, node):
         """doc.read() on a fresh reader: by the verified contract of _DocReader.read -- an encrypted Word document raises the
@@ -1444,6 +1453,118 @@ def doc_contracts(reg):
     cd.on_yield = doc_on_yield
     EXECUTOR_KW[t] = {"abstract": True, "inline_calls": False, "inline_local": True}
     out.append(cd)
+    return out
+
+
+# ---- round 7: the library's own handle classes (construction / __enter__ / __exit__) -------------
+# The call-site models of `with _DocReader(f) as doc` and `with SevenZipFile(f, "r") as szf` used to ASSUME that the handle
+# (a) keeps the bytes it was given, (b) opens the container view of THOSE bytes, (c) starts as the *fresh* reader the verified
+# read()/needs_password() contracts require, and (d) never swallows an exception leaving the `with` body (the engine's `with`
+# protocol re-raises: true only if __exit__ returns a false value).  Each of these is now an obligation on the real body.
+def _fields(c, name="self", at_exit=True):
+    return (c.st if at_exit else c.entry).obj(c.args[name].ref).data
+
+
+def _is_none(v):
+    return v is NONE
+
+
+def _same_ext(v, w):
+    """v is the very same abstract object as w (no copy, no wrapper)."""
+    return isinstance(v, VExt) and isinstance(w, VExt) and v.sort == w.sort and v.t.eq(w.t)
+
+
+def _returns_self(c):
+    from pyvc.values import VRef
+    return isinstance(c.result, VRef) and c.result.ref == c.args["self"].ref
+
+
+def _falsy(v):
+    """The value `__exit__` hands back is false: the exception leaving the body propagates."""
+    if v is NONE:
+        return z3.BoolVal(True)
+    if isinstance(v, VBool):
+        return z3.Not(v.t)
+    if isinstance(v, VInt):
+        return ops.int_term(v) == 0
+    return z3.BoolVal(False)
+
+
+def handle_contracts(reg):
+    out = []
+    DOC_FRESH = {"_content": p_const(None), "_is_unicode": p_const(None), "_text_start": p_const(None)}
+
+    def doc_init_post(c):
+        d = _fields(c)
+        return z3.BoolVal(_same_ext(d.get("file_like"), c.args["file_like"]) and _is_none(d.get("ole"))
+                          and all(_is_none(d.get(k, False)) for k in DOC_FRESH))
+
+    out.append(FnContract(
+        target=f"{DOC}::_DocReader.__init__", params=[("self", p_obj("_DocReader", {})), ("file_like", p_ext("BytesIO"))],
+        modifies=("self",), raises=[], total=True,
+        ensures=[("fresh-reader-over-the-given-bytes", doc_init_post)],
+        note="construction: keeps the very bytes it was given, container not yet opened, nothing parsed (the `fresh reader` the "
+             "contracts of _parse_content / read start from); raises nothing"))
+
+    def doc_enter_post(c):
+        d, d0 = _fields(c), _fields(c, at_exit=False)
+        ole = d.get("ole")
+        ok = (_returns_self(c) and _same_ext(d.get("file_like"), d0["file_like"]) and isinstance(ole, VExt) and ole.sort == "OleFile"
+              and all(_is_none(d.get(k, False)) for k in DOC_FRESH))
+        return z3.And(z3.BoolVal(ok), ole.t == OLE_OF(d0["file_like"].t)) if ok else z3.BoolVal(False)
+
+    out.append(FnContract(
+        target=f"{DOC}::_DocReader.__enter__",
+        params=[("self", p_obj("_DocReader", dict({"file_like": p_ext("BytesIO"), "ole": p_const(None)}, **DOC_FRESH)))],
+        modifies=("self",), raises=[Raises("Exception", sub=True)],
+        ensures=[("returns-self-with-the-directory-view-of-its-own-bytes-and-still-unparsed", doc_enter_post)],
+        exc_ensures=[("opening-never-rejects-as-encrypted", lambda c: z3.Implies(z3.BoolVal(own(c)), z3.Not(is_enc_err(c))))],
+        note="`as doc` is the reader itself; doc.ole = OleFileIO(doc.file_like) (assumed olefile view of the SAME bytes); a failure to "
+             "open is a library failure, never the file-encrypted error"))
+
+    def doc_exit_post(c):
+        return _falsy(c.result)
+
+    out.append(FnContract(
+        target=f"{DOC}::_DocReader.__exit__",
+        params=[("self", p_obj("_DocReader", dict({"file_like": p_ext("BytesIO"), "ole": p_opt(p_ext("OleFile"))},
+                                                    _content=p_unk(), _is_unicode=p_unk(), _text_start=p_unk()))),
+                ("args", Maker(lambda ex, st, name: [(None, VTuple([NONE, NONE, NONE])),          # the body completed / raised
+                                                     (None, VTuple([VExt("ExcInfo"), VExt("ExcInfo"), VUnk("traceback")]))],
+                               desc="(exc_type, exc_val, exc_tb): all None or an exception in flight"))],
+        modifies=("self",), raises=[], total=True,
+        ensures=[("returns-a-false-value-so-the-error-of-the-body-propagates", doc_exit_post)],
+        note="__exit__ closes the container (close() assumed total) and returns a false value: the file-encrypted error raised by "
+             "read() inside `with _DocReader(f) as doc` is never swallowed (the engine's `with` protocol relies on this)"))
+
+    # SevenZipFile(f, "r"): __init__ stores the arguments, __exit__ drops the reader and never swallows
+    def szf_init_post(c):
+        d = _fields(c)
+        return z3.BoolVal(_same_ext(d.get("_file"), c.args["file"]) and _is_none(d.get("_reader", False)))
+
+    out.append(FnContract(
+        target=f"{SEVEN}::SevenZipFile.__init__",
+        params=[("self", p_obj("SevenZipFile", {})), ("file", p_ext("BytesIO")), ("mode", p_str()), ("password", p_opt(p_str()))],
+        modifies=("self",),
+        raises=[Raises("Bad7zFile", when=lambda c: c.args["mode"].t != sv("r"), label="only mode 'r'")],
+        ensures=[("mode-r-and-keeps-the-given-bytes-with-no-reader-yet",
+                  lambda c: z3.And(c.args["mode"].t == sv("r"), szf_init_post(c)))],
+        exc_ensures=[("construction-never-raises-the-encryption-signal",
+                      lambda c: z3.Not(c.ex.uni.subclass_term(c.exc.tidx, aes_signal(c.ex.module.repo)[0]))
+                      if aes_signal(c.ex.module.repo)[1] and c.ex.uni.known(aes_signal(c.ex.module.repo)[0]) else z3.BoolVal(True))],
+        note="SevenZipFile(f, 'r'): stores the very bytes it was given, reader not yet built (precondition of __enter__ / "
+             "needs_password contracts); Bad7zFile iff mode != 'r'"))
+
+    out.append(FnContract(
+        target=f"{SEVEN}::SevenZipFile.__exit__",
+        params=[("self", p_obj("SevenZipFile", {"_file": p_unk(), "_password": p_unk(), "_reader": p_unk()})),
+                ("exc_type", p_opt(p_ext("ExcInfo"))), ("exc_val", p_opt(p_ext("ExcInfo"))), ("exc_tb", p_unk())],    # None = the body completed
+        modifies=("self",), raises=[], total=True,
+        ensures=[("returns-a-false-value-so-the-error-of-the-body-propagates", lambda c: _falsy(c.result))],
+        note="__exit__ never swallows: the file-encrypted error raised after needs_password() inside `with SevenZipFile(...)` and the "
+             "decoder's encryption signal escaping __enter__ both reach the extractor's handlers"))
+    for c_ in out:
+        EXECUTOR_KW[c_.target] = {"inline_calls": False, "inline_local": False}
     return out
 
 
@@ -2448,6 +2569,7 @@ def contracts(reg):
     out = []
     out += detector_contracts(reg)
     out += doc_contracts(reg)
+    out += handle_contracts(reg)
     out += archive_contracts(reg)
     out += epub_contracts(reg)
     out += pdf_contracts(reg)
